@@ -18,6 +18,7 @@ def pstr(v):
 def run(prog, chk):
     split_table(prog, chk)
     url_parser_table(prog, chk)
+    string_param_table(prog, chk)
     _run(prog, chk)
 
 
@@ -473,3 +474,90 @@ def split_table(prog, chk):
         ok = q.ret == 0 and got == (wuser, wpass)
         chk.ob("C20.userinfo", inst, ok, "expected login id %r and key %r; source: status %s, login id %r, key %r" % (wuser, wpass, q.ret, got[0], got[1]),
                loc=fn.loc(), fn=fn, nontrivial=wpass is not None and ":" in wpass)
+
+
+def string_param_table(prog, chk):
+    """newStringFromExisting / setStringParam - what every blocking transport uses to remember url, host, login id and key: after the
+    call the parameter holds exactly the new value (the first val_len - 1 octets of a slice), whatever it held before - an old value
+    that merely starts with the new one included.  Strings are byte buffers; strlen / memcpy / strncmp / strcmp are evaluated on them."""
+    from ksirules.bufinterp import BufInterp, Off
+    chk.rule("C20.setparam", "a string parameter holds exactly the value last given to it (old value: none / equal / longer with the new one as prefix / "
+                             "shorter / different; whole string and slice)", floor=10)
+    fn = prog.fn("newStringFromExisting", "net.c")
+    sp, vp, lp = [p["n"] for p in fn.params]
+    cases = [(None, "/ksi/aggregator", -1), ("/ksi/aggregator-test", "/ksi/aggregator", -1), ("/ksi/aggregator", "/ksi/aggregator", -1), ("/ksi", "/ksi/aggregator", -1),
+             ("tester2", "tester", -1), ("secretkey", "secret", -1), ("abc", "xyz", -1), ("127.0.0.1:18081", "127.0.0.1:1808", -1),
+             ("anon-long", "anon:key@host", 5), (None, "anon:key@host", 5), ("anon", "anon:key@host", 5), ("a", "", -1), ("", "a", -1)]
+    for old, val, vlen in cases:
+        def getstr(I, p, v, limit=None):
+            o = I.as_off(v)
+            if o is None:
+                return None
+            out, k = [], o.off
+            while limit is None or len(out) < limit:
+                c = I.read(p, "%s[%d]" % (o.base, k))
+                if not isinstance(c, int):
+                    return None
+                if c == 0:
+                    break
+                out.append(c)
+                k += 1
+            return out
+
+        def strlen_(I, p, node, args):
+            sv = getstr(I, p, args[0])
+            return len(sv) if sv is not None else TOP
+
+        def cmp_(limit_arg):
+            def f(I, p, node, args):
+                n = args[limit_arg] if limit_arg is not None else None
+                if limit_arg is not None and not isinstance(n, int):
+                    return TOP
+                a, b = getstr(I, p, args[0], n), getstr(I, p, args[1], n)
+                if a is None or b is None:
+                    return TOP
+                return 0 if a == b else (1 if a > b else -1)
+            return f
+
+        def malloc_(I, p, node, args):
+            if not isinstance(args[0], int):
+                return TOP
+            I.buffers["NEW"] = args[0]
+            return Ptr("NEW")
+
+        def memcpy_(I, p, node, args):
+            d, s_, n = I.as_off(args[0]), I.as_off(args[1]), args[2]
+            if d is None or s_ is None or not isinstance(n, int) or n < 0 or n > 4096:
+                return TOP
+            if d.off + n > I.buffers.get(d.base, 0) or s_.off + n > I.buffers.get(s_.base, 0):
+                I.fault(p, "memcpy of %d octets outside %s / %s" % (n, d.base, s_.base)) if hasattr(I, "fault") else None
+                return TOP
+            for k in range(n):
+                I.write(p, "%s[%d]" % (d.base, d.off + k), I.read(p, "%s[%d]" % (s_.base, s_.off + k)))
+            return args[0]
+        freed = []
+        ov = {"strlen": strlen_, "strncmp": cmp_(2), "strcmp": cmp_(None), "memcmp": cmp_(2), "KSI_malloc": malloc_, "KSI_calloc": malloc_, "memcpy": memcpy_, "memmove": memcpy_,
+              "strncpy": memcpy_, "KSI_free": lambda I, p, n, a: (freed.append(a[0]), TOP)[1]}
+        bufs = {"VAL": len(val) + 1}
+        inputs = {sp: Ptr("SLOT"), vp: Ptr("VAL"), lp: vlen, "*" + sp: Ptr("OLD") if old is not None else 0}
+        for k, c in enumerate(val.encode() + b"\0"):
+            inputs["VAL[%d]" % k] = c
+        if old is not None:
+            bufs["OLD"] = len(old) + 1
+            for k, c in enumerate(old.encode() + b"\0"):
+                inputs["OLD[%d]" % k] = c
+        I = BufInterp(fn, bufs, inputs=inputs, call_model=succeed_model(prog, ov), on_unknown="stop", prog=prog, loop_bound=64)
+        paths = I.run()
+        chk.paths += len(paths)
+        want = val if vlen < 0 else val[:vlen - 1]
+        inst = "string parameter[held %s, given %s%s]" % ("nothing" if old is None else repr(old), repr(val), "" if vlen < 0 else " (slice of %d)" % (vlen - 1))
+        if len(paths) != 1 or paths[0].undetermined or paths[0].ret is TOP:
+            raise AnalysisBroken("newStringFromExisting: evaluation not determined for %s: %s" % (inst, [q.undetermined[:1] for q in paths]))
+        q = paths[0]
+        st = q.stores("*" + sp)
+        cur = st[-1][2] if st else (Ptr("OLD") if old is not None else 0)
+        got = getstr(I, q, cur) if cur != 0 else None
+        gots = bytes(got).decode("latin1") if got is not None else None
+        ok = q.ret == 0 and gots == want and not (cur == Ptr("OLD") and Ptr("OLD") in freed)
+        chk.ob("C20.setparam", inst, ok, "expected KSI_OK and the parameter holding %r; source: status %s, parameter holds %r" % (want, q.ret, gots), loc=fn.loc(), fn=fn,
+               nontrivial=old is not None and old != want)
